@@ -1099,6 +1099,13 @@ def run_case_svg(case):
                     pass
                 with SVGWriter.SVGText(xs, pt, s, 12, dict(attrs)):
                     xs.characters(s)
+                # the documented optional parts left out: no location (text inside <defs>), no attributes, neither
+                with SVGWriter.SVGText(xs, None, s, 12, dict(attrs)):
+                    xs.characters(s)
+                with SVGWriter.SVGText(xs, None, s, 12):
+                    xs.characters(s)
+                with SVGWriter.SVGText(xs, pt, s, 12):
+                    xs.characters(s)
     except Exception as err:  # noqa
         return [({'kind': 'writer_raises', 'exc': type(err).__name__, 'op': 'svg', 'writer': 'SVGWriter'},
                  'SVGWriter: %s: %s' % (type(err).__name__, err))], h64(('raise', type(err).__name__)), 'raises'
@@ -1111,11 +1118,16 @@ def run_case_svg(case):
     bad = []
     root = pr.root
     shapes = [e.name for e in root.iter()]
-    if shapes != ['svg', 'desc'] + SVG_SHAPES:
+    if shapes != ['svg', 'desc'] + SVG_SHAPES + ['text', 'text', 'text']:
         bad.append(({'kind': 'structure_changed', 'what': 'children', 'writer': 'SVGWriter'}, 'elements %r' % shapes))
         return bad, h64(doc), 'ok'
-    checks = [(root, 'id')] + [(e, 'class') for e in root.iter() if e.name in SVG_SHAPES]
-    checks.append(([e for e in root.iter() if e.name == 'text'][0], 'font-family'))
+    texts = [e for e in root.iter() if e.name == 'text']
+    checks = [(root, 'id')] + [(e, 'class') for e in root.iter() if e.name in SVG_SHAPES and e not in texts[2:]]
+    checks += [(e, 'font-family') for e in texts]
+    for e, want_xy in zip(texts, (True, False, False, True)):
+        if ('x' in e.attrs and 'y' in e.attrs) != want_xy:
+            bad.append(({'kind': 'structure_changed', 'what': 'attribute_names', 'writer': 'SVGWriter'},
+                        '<text> written %s a location has attributes %r' % ('with' if want_xy else 'without', sorted(e.attrs))))
     for e, a in checks:
         if e.attrs.get(a) != s:
             bad.append(({'kind': attr_mismatch_kind(s, e.attrs.get(a) or ''), 'writer': 'SVGWriter'},
